@@ -522,6 +522,150 @@ fn admission_after_cleanup(run: &Run) {
     let _ = std::fs::remove_dir_all(&scratch);
 }
 
+/// The same rules one level up, on a real node: a real `SwarmDriver` (its `PutLocalRecord`, `PaymentReceived`,
+/// `TriggerIrrelevantRecordCleanup` and `GetLocalQuotingMetrics` handlers) under a real `Node` answering `GetStoreQuote`.
+/// A store of `THRESHOLD + 2` records (so that everything the clean-up threshold gates can run) at capacity, a
+/// responsible range that leaves the 40 farthest outside, three payments. Judged: the figures *in the signed quote*
+/// (not the store's own report), the quote's signature and address, a refused put (held set unchanged — the handler
+/// around `put_verified` must not react to a refusal by dropping records), an admitted nearer put (exactly the farthest
+/// goes), the periodic clean-up (exactly the records outside the range go), and the quote again afterwards.
+fn node_layer(run: &Run) {
+    use ant_networking::verif_hooks::LocalSwarmCmd;
+    use ant_protocol::messages::{Query, QueryResponse};
+    use ant_protocol::storage::ChunkAddress;
+    const THRESHOLD: usize = 16 * 1024 / 10;
+    const N: usize = THRESHOLD + 2;
+    const OUTSIDE: usize = 40;
+    const PAYMENTS: usize = 3;
+    let root = fresh_scratch("c10-node");
+    let stub = std::sync::Arc::new(crate::evm_stub::EvmStub::start());
+    let mut rig = crate::node_rig::NodeRig::new(1, &root, stub);
+    let peer = rig.d.peer_id();
+    let me = NetworkAddress::from_peer(peer).as_bytes();
+    rig.set_max_records(N);
+    // ranks 0, 1: nearer than everything held (kept for later); ranks 2..N+2: held; rank N+2: farther than everything held
+    let keys = ranked_keys(peer, N + 3, "c10-node");
+    let dist = |k: &RecordKey| u256(&xor_distance(&me, k.as_ref()));
+    let val = [&[0x91u8, 1][..], b"node-layer"].concat();
+    let rec = |k: &RecordKey| libp2p::kad::Record { key: k.clone(), value: val.clone(), publisher: None, expires: None };
+    let held0: Vec<RecordKey> = keys[2..N + 2].to_vec();
+    for (i, k) in held0.iter().enumerate() {
+        if let Err(e) = rig.d.handle_local(LocalSwarmCmd::PutLocalRecord { record: rec(k) }) {
+            run.violation("admission", "node-layer/fill", format!("put {i} of {N} into a store of capacity {N} was refused: {e}"), serde_json::json!({"engine":"node-layer"}));
+        }
+        if i % 64 == 63 {
+            rig.d.settle();
+        }
+    }
+    rig.d.settle();
+    let listed = |rig: &mut crate::node_rig::NodeRig| -> BTreeSet<String> { rig.listed().into_iter().map(|s| s.split(':').next().unwrap_or("").to_string()).collect() };
+    let want0: BTreeSet<String> = held0.iter().map(hexkey).collect();
+    run.case(b"node-layer:fill", true);
+    if listed(&mut rig) != want0 {
+        run.violation("capacity-bound", "node-layer/fill", format!("after {N} acknowledged puts the node lists {} records", listed(&mut rig).len()), serde_json::json!({"engine":"node-layer"}));
+        return;
+    }
+    // the range: between the (N - OUTSIDE)th and the next held record
+    let (lo, hi) = (dist(&held0[N - OUTSIDE - 1]), dist(&held0[N - OUTSIDE]));
+    let range = lo + (hi - lo) / U256::from(2u8);
+    rig.d.driver.verif_set_responsible_range(range);
+    for _ in 0..PAYMENTS {
+        let _ = rig.d.handle_local(LocalSwarmCmd::PaymentReceived);
+        rig.d.settle();
+    }
+    let rewards = ant_evm::RewardsAddress::from([7u8; 20]);
+    let quote_for = |rig: &mut crate::node_rig::NodeRig, k: &RecordKey| {
+        let mut x = [0u8; 32];
+        x.copy_from_slice(k.as_ref());
+        let addr = NetworkAddress::from_chunk_address(ChunkAddress::new(xor_name::XorName(x)));
+        let net = rig.d.network.clone();
+        let q = Query::GetStoreQuote { key: addr, nonce: None, difficulty: 0 };
+        rig.run_no_io("quote", async move { ant_node::verif_hooks::VerifNode::handle_query(&net, q, rewards).await })
+    };
+    let judge_quote = |rig: &mut crate::node_rig::NodeRig, when: &str, k: &RecordKey, want_close: usize| {
+        run.case(format!("node-layer:quote:{when}").as_bytes(), true);
+        match quote_for(rig, k) {
+            Some(ant_protocol::messages::Response::Query(QueryResponse::GetStoreQuote { quote: Ok(q), peer_address, .. })) => {
+                let m = &q.quoting_metrics;
+                let mut wrong = vec![];
+                if m.close_records_stored != want_close {
+                    wrong.push(format!("records within the responsible range: quoted {}, held {want_close}", m.close_records_stored));
+                }
+                if m.max_records != N {
+                    wrong.push(format!("capacity: quoted {}, configured {N}", m.max_records));
+                }
+                if m.received_payment_count != PAYMENTS {
+                    wrong.push(format!("payments received: quoted {}, received {PAYMENTS}", m.received_payment_count));
+                }
+                if m.network_density != Some(range.to_be_bytes()) {
+                    wrong.push("the responsible range in the quote is not the one in force".to_string());
+                }
+                if q.content.0[..] != *k.as_ref() {
+                    wrong.push("the quote names another address than the one asked about".to_string());
+                }
+                if q.rewards_address != rewards {
+                    wrong.push("the quote names another rewards address".to_string());
+                }
+                if !q.check_is_signed_by_claimed_peer(peer) {
+                    wrong.push("the quote is not signed by this node over its content".to_string());
+                }
+                if peer_address != NetworkAddress::from_peer(peer) {
+                    wrong.push("the answer names another peer".to_string());
+                }
+                for w in wrong {
+                    run.violation("quoting-metrics", "node-layer/signed-quote", format!("{when}: {w}"), serde_json::json!({"engine":"node-layer","when":when}));
+                }
+            }
+            other => run.violation("quoting-metrics", "node-layer/no-quote", format!("{when}: asked for a quote for a record the node does not hold, got {:?}", other.map(|o| format!("{o:?}").chars().take(120).collect::<String>())), serde_json::json!({"engine":"node-layer","when":when})),
+        }
+    };
+    judge_quote(&mut rig, "store full, range leaving 40 held records outside, 3 payments", &keys[0], N - OUTSIDE);
+    // a record the node holds is not quoted for
+    run.case(b"node-layer:quote-held", true);
+    match quote_for(&mut rig, &held0[5]) {
+        Some(ant_protocol::messages::Response::Query(QueryResponse::GetStoreQuote { quote: Err(ant_protocol::error::Error::RecordExists(_)), .. })) => {}
+        other => run.violation("quoting-metrics", "node-layer/held-record-quoted", format!("asked for a quote for a record the node holds, got {:?}", other.map(|o| format!("{o:?}").chars().take(120).collect::<String>())), serde_json::json!({"engine":"node-layer"})),
+    }
+    // refused: farther than the farthest held record
+    run.case(b"node-layer:refused-put", true);
+    let r = rig.d.handle_local(LocalSwarmCmd::PutLocalRecord { record: rec(&keys[N + 2]) });
+    rig.d.settle();
+    let after = listed(&mut rig);
+    if r.is_ok() || after.contains(&hexkey(&keys[N + 2])) {
+        run.violation("admission", "node-layer/farther-record-admitted", format!("a full node admitted a record farther than its farthest ({r:?})"), serde_json::json!({"engine":"node-layer"}));
+    }
+    if after != want0 {
+        let gone = want0.difference(&after).count();
+        run.violation("refusal-leaves-held-set", "node-layer", format!("a refused put changed the held set: {gone} records went missing, {} appeared", after.difference(&want0).count()), serde_json::json!({"engine":"node-layer"}));
+    }
+    if after == want0 {
+        // admitted: nearer than everything; exactly the farthest goes
+        run.case(b"node-layer:admitted-put", true);
+        let r = rig.d.handle_local(LocalSwarmCmd::PutLocalRecord { record: rec(&keys[0]) });
+        rig.d.settle();
+        let after = listed(&mut rig);
+        let mut want1 = want0.clone();
+        want1.remove(&hexkey(&held0[N - 1]));
+        want1.insert(hexkey(&keys[0]));
+        if r.is_err() || after != want1 {
+            run.violation("eviction-exact", "node-layer", format!("full node, nearer record: result {r:?}; {} records missing, {} unexpected", want1.difference(&after).count(), after.difference(&want1).count()), serde_json::json!({"engine":"node-layer"}));
+        }
+        judge_quote(&mut rig, "after the nearer record replaced the farthest", &keys[1], N - OUTSIDE + 1);
+        // periodic clean-up: exactly the records outside the range go
+        run.case(b"node-layer:clean-up", true);
+        let _ = rig.d.handle_local(LocalSwarmCmd::TriggerIrrelevantRecordCleanup);
+        rig.d.settle();
+        let after = listed(&mut rig);
+        let want2: BTreeSet<String> = want1.iter().filter(|h| keys.iter().find(|k| hexkey(k) == **h).map(|k| dist(k) <= range).unwrap_or(false)).cloned().collect();
+        if after != want2 {
+            run.violation("cleanup-exact", "node-layer", format!("clean-up on a node of {} records with 39 outside the range: {} left, expected {}", want1.len(), after.len(), want2.len()), serde_json::json!({"engine":"node-layer"}));
+        }
+        judge_quote(&mut rig, "after the periodic clean-up", &keys[1], N - OUTSIDE + 1);
+    }
+    drop(rig);
+    let _ = std::fs::remove_dir_all(&root);
+}
+
 pub fn main(tier: Option<&str>) {
     let run = Run::new("C10", "model_checking", tier);
     run.rule(
@@ -529,7 +673,10 @@ pub fn main(tier: Option<&str>) {
          Put(k) (notification delivered later, so bursts of unacknowledged writes exist), Remove(held k, nothing of it in flight), SetRange(strictly between ranks), Payment, \
          Cleanup, Restart, and every order of the store's background tasks incl. metrics flushes; at most 3(4) API operations per history \
          from empty and pre-filled stores, scheduler steps unbounded. Second part: stores loaded with 1637/1638/1639 settled records x \
-         5 ranges (+ no range) checked for exact clean-up and exact close-record count.",
+         5 ranges (+ no range) checked for exact clean-up and exact close-record count. Third part (node layer): a real Node over a real \
+         SwarmDriver holding 1640 records at capacity with a range leaving 40 outside and 3 payments: the signed figures, signature and address of \
+         the quote it answers GetStoreQuote with (before and after an admitted put and the clean-up), a refused and an admitted PutLocalRecord, \
+         TriggerIrrelevantRecordCleanup, each judged on the node's listed records.",
     );
     run.assume("ranges are placed strictly between key distances: behaviour at distance == range is not probed");
     run.assume("payment count after a restart is judged only when no metrics flush was pending at the restart");
@@ -547,5 +694,6 @@ pub fn main(tier: Option<&str>) {
         );
     }
     cleanup_threshold(&run);
+    node_layer(&run);
     run.finish();
 }
